@@ -28,6 +28,24 @@ CLAIMED["C06"] = (
     "loader.align(_multi_templates) and LoaderGroup.align_multi_templates (incl. per-group mappings) and compares label/rotation/"
     "score inside Coq; candidate order tied by a structural anchor + real-score oracle (ZNCC/NCC/PCC).",
     "regenerated anchors + Coq theorems (induction on score list) + scripted correspondence")
+CLAIMED["C11"] = (
+    "Theorems (Coq, abstract commutative ring => all of SO(3) x R^3): axes are the images of (0,0,1),(0,1,0),(1,0,0), orthogonal, "
+    "equal length, right-handed in z,y,x order; world rotations compose on the left and fix positions; internal rotations act on the "
+    "right ((a q a*) a = |a|^2 a q); translate_internal adds R s; linear_transform and any sequence of internal operations equal "
+    "right composition with the product of their rigid motions (induction over the call list); affine_matrix and local_coordinates "
+    "agree with axes and position; translate_euler is an involution; from_axes anti-parallel branch: refuted witness (known finding) "
+    "+ partial. Tie: structural/scalar anchors regenerated from molecules/core.py and _rotation.py; random call sequences on real "
+    "Molecules (24 exact rotations, quarter-grid vectors) compared with the model fold inside Coq, incl. copy=True non-mutation. "
+    "Euler/quaternion/rotvec/matrix round trips are scipy kernels: oracle only (partial).",
+    "regenerated anchors + Coq ring theorems + in-Coq history correspondence")
+CLAIMED["C01"] = (
+    "Theorems (Coq, abstract ring): the aligned pose is the input pose composed on the right with the rigid motion (shift*scale, q) "
+    "denoted by the alignment result; hence, if the tomogram holds the template at pose B and the template pins its pose, the "
+    "output molecule acts exactly like B; unit conversion px<->nm; the displacement seen in the input molecule frame is scale*shift. "
+    "Tie: C11 anchors + loader anchors regenerated; _post_align/_post_align_multi_templates of Subtomogram/Batch loaders driven "
+    "with synthetic results and compared (position, orientation, shift/rotation/score features) inside Coq. Sub-pixel recovery "
+    "of a simulated particle through single/batch/group/multi-template loaders x ZNCC/NCC/PCC is a numeric oracle (partial).",
+    "regenerated anchors + Coq ring theorems + in-Coq correspondence + end-to-end oracle")
 NOT_YET = "machinery for this property is not built yet in this revision (see DESIGN.md §6 for the planned model)"
 
 def main():
